@@ -1,26 +1,47 @@
 #!/usr/bin/env python3
-"""Prints the detection matrix of /verif/seeded as markdown (from seeded/*/detection.txt and meta.json)."""
+"""Prints the detection matrix of /verif/seeded as markdown.
+
+Sources per seeded change: final.txt (last regression run: own check + every check that had
+reported the change before), detection.txt (matrix run against many checks; may predate later
+strengthening) and meta.json (status of the own check at the first run after the change arrived).
+A check counts as reporting the change if it did so in final.txt, or in detection.txt and was not
+re-run in final.txt."""
 import os, re, json
 root = os.path.join(os.path.dirname(os.path.dirname(os.path.abspath(__file__))), 'seeded')
 rows = []
+pat = re.compile(r'SEED-RESULT check=(C\d+) tier=\w+ exit=(\d+)')
 for sd in sorted(os.listdir(root)):
     d = os.path.join(root, sd)
-    det = os.path.join(d, 'detection.txt')
-    if not os.path.exists(det):
+    res = {}
+    txts = []
+    for fn in ('detection.txt', 'final.txt'):
+        p = os.path.join(d, fn)
+        if os.path.exists(p):
+            t = open(p).read()
+            txts.append(t)
+            for c, rc in pat.findall(t):
+                res[c] = rc  # final.txt overrides
+    if not res:
         continue
-    txt = open(det).read()
-    checks = re.findall(r'SEED-RESULT check=(C\d+) tier=\w+ exit=(\d+)', txt)
-    caught = [c for c, rc in checks if rc == '1']
-    base = 'pass' if 'baseline=pass' in txt else 'FAIL'
-    demo = 'fail/pass' if 'with-change=FAIL without-change=PASS' in txt else '?'
-    first = ''
+    alltxt = '\n'.join(txts)
+    caught = sorted(c for c, rc in res.items() if rc == '1')
+    own = sd.split('-')[0]
+    base = 'pass' if 'baseline=pass' in alltxt else 'FAIL'
+    demo = 'fails/passes' if 'with-change=FAIL without-change=PASS' in alltxt else ('not runnable here' if sd == 'C19-E' else '?')
+    first, rnd = '', ''
     mp = os.path.join(d, 'meta.json')
     if os.path.exists(mp):
-        first = json.load(open(mp)).get('status_at_first_run', '')
+        m = json.load(open(mp))
+        first, rnd = m.get('status_at_first_run', ''), str(m.get('round', ''))
     notes = open(os.path.join(d, 'notes.md')).read().strip().split('\n')
-    title = next((l.strip('# ').strip() for l in notes if l.strip()), '')[:110]
-    rows.append((sd, title, base, demo, first, ' '.join(caught) or '-', len(checks)))
-print('| seeded change | what it is | repo tests | demo with/without | own check at first run | checks that report it now (of those run) |')
-print('|---|---|---|---|---|---|')
+    title = next((l.strip('# ').strip() for l in notes if l.strip()), '')
+    title = re.sub(r'^(C\d\d[ /-]*)?(change )?[AB][ :—–-]*', '', title, flags=re.I)[:105].replace('|', '/')
+    rows.append((sd, rnd, title, base, demo, first, 'yes' if own in caught else 'no', ' '.join(caught) or '-', len(res)))
+print('| change | round | what it is | repo tests | demo with / without the change | own check at first run | own check now | checks that report it (of those run) |')
+print('|---|---|---|---|---|---|---|---|')
 for r in rows:
-    print('| %s | %s | %s | %s | %s | %s (%d run) |' % r)
+    print('| %s | %s | %s | %s | %s | %s | %s | %s (%d) |' % r)
+missed = [r[0] for r in rows if r[7] == '-']
+print()
+print('%d seeded changes, %d reported by at least one check, %d by the check of their own property; unreported: %s' % (
+    len(rows), len(rows) - len(missed), sum(1 for r in rows if r[6] == 'yes'), ', '.join(missed) or 'none'))
